@@ -194,6 +194,20 @@ def cases(ctx):
     tier = ctx.tier
     n = 120 if tier == "quick" else 1500
     kinds = ("mandatory", "optional", "alternative", "or", "mutex", "card")
+    # siblings whose names differ only in letter case (ties of any case-insensitive ordering)
+    F, R = spec.F, spec.R
+    twins = [
+        dict(root=F("App", [R(1, 2, [F("Cache"), F("cache")]), R(0, 1, [F("Log")]), R(0, 1, [F("log")])]), ctcs=[]),
+        dict(root=F("P", [R(1, 1, [F("Ab"), F("aB"), F("AB")]), R(1, 1, [F("ab"), F("x")]),
+                          R(0, 1, [F("Q", [R(1, 2, [F("y"), F("Y")])])])]),
+             ctcs=[("c0", spec.OP("IMPLIES", spec.T("Ab"), spec.T("aB"))), ("c1", spec.OP("IMPLIES", spec.T("aB"), spec.T("Ab")))]),
+    ]
+    for m in twins:
+        yield "twins-self", m, copy.deepcopy(m)
+        for k in range(6):
+            yield "twins-permuted", m, permuted(m, g.rng)
+        for kind, m2 in edits(m, g.rng, g):
+            yield "twins-edit-" + kind, m, m2
     for i in range(n):
         size = g.rng.choice([1, 2, 4, 7, 12]) if tier == "quick" else g.rng.choice([1, 3, 8, 20, 60])
         m = g.model(size, kinds=kinds, ctc_depth=2, name_classes=("plain", "space", "keyword", "punct", "lead"))
